@@ -1,5 +1,7 @@
 """Per-property check specifications."""
+import glob
 import os
+import re
 
 import driver
 
@@ -205,4 +207,107 @@ SPECS["C08"] = v2spec(
     floor_evals={"quick": 500, "thorough": 4000},
     floor_nontrivial={"quick": 300, "thorough": 2500},
     timeout={"quick": 1500, "thorough": 3 * 3600},
+)
+
+
+# ---------------------------------------------------------------------------
+# race detector support
+
+
+def parse_race_logs(pattern, module_marker, harness_marker="zz_verif_"):
+    """Parses GORACE log_path files. Returns (n_reports, distinct list).
+    A report is attributed to the code under test when one of its stacks has a frame
+    whose function belongs to module_marker and whose file is not a harness file."""
+    reports = []
+    for f in sorted(glob.glob(pattern)):
+        txt = open(f, errors="replace").read()
+        for blk in txt.split("==================")[1:]:
+            if "WARNING: DATA RACE" not in blk:
+                continue
+            reports.append(blk)
+    distinct = {}
+    for blk in reports:
+        stacks = re.split(r"\n\n", blk.strip())
+        frames_all = []
+        repo_related = False
+        outer = []
+        for st in stacks[:2]:  # the two conflicting accesses
+            lines = st.split("\n")
+            fr = []
+            i = 1
+            while i + 1 < len(lines):
+                fn = lines[i].strip()
+                loc = lines[i + 1].strip()
+                fr.append((fn, loc))
+                i += 2
+            frames_all.append(fr)
+            # outermost frame inside the module under test that is not harness code
+            o = None
+            for fn, loc in fr:
+                if module_marker in fn and harness_marker not in loc:
+                    repo_related = True
+                    o = fn
+            outer.append(o or (fr[-1][0] if fr else "?"))
+        inner = tuple((fr[0][0] + " " + re.sub(r" \+0x[0-9a-f]+$", "", fr[0][1])) if fr else "?" for fr in frames_all)
+        key = (tuple(outer), tuple(re.sub(r":\d+.*$", "", x) for x in inner))
+        d = distinct.setdefault(key, {"count": 0, "repo_related": repo_related, "outer": list(outer), "inner": list(inner), "example": blk.strip()[:3500]})
+        d["count"] += 1
+        d["repo_related"] = d["repo_related"] or repo_related
+    return len(reports), list(distinct.values())
+
+
+def run_c09(ctx, spec):
+    tier = ctx["tier"]
+    scratch = ctx["scratch"]
+    race_bin, bt1 = driver.build_test(scratch, "v2", ".", ["v2"], race=True, out="v2")
+    plain_bin, bt2 = driver.build_test(scratch, "v2", ".", ["v2"], race=False, out="v2")
+    cwd = os.path.join(driver.REPO, "v2")
+    repeats = {"quick": 3, "thorough": 10}[tier]
+    only = ctx.get("only")
+    ctx["gomaxprocs"] = driver.NCPU
+    race_log = os.path.join(scratch, "racelog")
+    env = {"VERIF_C09_MODE": "race", "GORACE": "halt_on_error=0 log_path=%s" % race_log, "VERIF_WORKERS": "1", "VERIF_CASE_TIMEOUT": "900"}
+    if only is not None:
+        env["VERIF_ONLY"] = str(only)
+        repeats = 1
+    ctx["tag"] = "C09race"
+    ev1, cr1, sg1 = driver.run_sharded(ctx, race_bin, "TestVerifC09", cwd, repeats, 3600, extra_env=env, parallel=1)
+    env2 = {"VERIF_C09_MODE": "plain", "VERIF_WORKERS": "1", "VERIF_CASE_TIMEOUT": "900"}
+    if only is not None:
+        env2["VERIF_ONLY"] = str(only)
+    ctx["tag"] = "C09plain"
+    ev2, cr2, sg2 = driver.run_sharded(ctx, plain_bin, "TestVerifC09", cwd, 1, 3600, extra_env=env2, parallel=1)
+    nrep, distinct = parse_race_logs(race_log + ".*", "licenseclassifier/v2")
+    viol = []
+    for d in distinct:
+        if d["repo_related"]:
+            viol.append({"ev": "case", "verdict": "violation", "kind": "data-race", "gen": "race-detector", "idx": None,
+                         "detail": "%d report(s); outermost frames in the module: %s\n%s" % (d["count"], d["outer"], d["example"])})
+        else:
+            viol.append({"ev": "case", "verdict": "violation", "kind": "data-race-in-harness", "gen": "race-detector", "idx": None,
+                         "detail": "race report without a frame of the code under test (harness defect?)\n" + d["example"]})
+    obs = [e for e in ev1 + ev2 if e.get("ev") == "obs"]
+    maxc = max([(o.get("obs") or {}).get("max_concurrent_calls", 0) for o in obs] or [0])
+    samples = [{"storm": o.get("gen"), "process": o.get("shard"), "observed": o.get("obs")} for o in obs[:3]]
+    cov = {"race_build_s": round(bt1, 1), "race_reports": nrep, "distinct_race_reports": len(distinct), "race_processes": repeats,
+           "storms": len(obs), "max_concurrent_calls_observed": maxc,
+           "concurrent_calls_under_race_detector": sum((o.get("obs") or {}).get("calls", 0) for o in obs if o in [e for e in ev1 if e.get("ev") == "obs"])}
+    ctx["expected_dones"] = repeats + 1
+    ctx["tag"] = "C09"
+    return driver.summarize(ctx, ev1 + ev2, cr1 + cr2, sg1 | sg2, spec, extra_cov=cov, extra_violations=viol, extra_samples=samples)
+
+
+SPECS["C09"] = dict(
+    run=run_c09, test="TestVerifC09", engine="go-race-detector", level="exploration",
+    module="v2", pkgdir=".", harness=["v2"], builds=[dict(module="v2", pkgdir=".", harness=["v2"], race=True)],
+    title="one classifier can be matched against from many goroutines at once",
+    technique="Go race detector over repeated concurrent storms + differential against sequential results + corpus canary",
+    rule=("storm = G goroutines (2/8/16 under -race, 64/256 in a plain build) released by a barrier, each issuing 3 (2) Match/MatchFrom calls over a small shared input set aimed at ONE corpus document "
+          "(three variants of it with two far-apart edits, which drives go-diff into its half-match path on the shared corpus runes; an exact copy; a large license; a scenario file). "
+          "The -race binary is run as 3 (quick) / 10 (thorough) separate processes with GORACE=halt_on_error=0 log_path=...; every 'WARNING: DATA RACE' block is parsed, de-duplicated by the pair of outermost module frames "
+          "and innermost frames, and reported. Every concurrent result is compared with the result of the same call made alone; a SHA-256 canary over all corpus tokens/runes/dictionary is taken before and after. "
+          "Calls lasting >= 0.8 s are not judged for equality (go-diff's 1 s deadline). Non-trivial = storm in which >= 2 calls were observed open at the same time; distinct = (process, storm)."),
+    assumptions=list(V2_ASSUME) + ["the race detector only sees interleavings that occur; reports vary from run to run, hence repeated processes"],
+    floor_evals={"quick": 10, "thorough": 100},
+    floor_nontrivial={"quick": 8, "thorough": 80},
 )
